@@ -11,9 +11,14 @@ pub fn candidates(prop: &str) -> Vec<Value> {
     let mut v = vec![];
     match prop {
         "C16" => {
-            for g in ["G1", "G2"] { for kind in ["non_subgroup", "off_curve", "flags", "lengths", "zero_scalars", "bad_share_payload"] {
+            for g in ["G1", "G2"] { for kind in ["non_subgroup", "off_curve", "flags", "lengths", "zero_scalars", "bad_share_payload", "json_lengths"] {
                 v.push(json!({"call": "decoders", "group": g, "kind": kind}));
             }}
+        }
+        "C04" => {
+            for g in ["G1", "G2"] { for sch in ["Basic", "MessageAugmentation", "ProofOfPossession"] { for kind in ["tc_forged_id_sig", "tc_id_u", "sc_id_points"] {
+                v.push(json!({"call": "identity_payload", "group": g, "scheme": sch, "kind": kind}));
+            }}}
         }
         "C15" => {
             for g in ["G1", "G2"] { for kind in ["point_bytes", "commitment_scalars", "containers", "schemes", "serde_forms"] {
@@ -33,6 +38,9 @@ pub fn candidates(prop: &str) -> Vec<Value> {
         "C18" | "C11" | "C13" => {
             for g in ["G1", "G2"] { for sch in ["Basic", "MessageAugmentation", "ProofOfPossession"] { for kind in ["sc_lib_to_ref", "sc_ref_to_lib", "tc_lib_to_ref", "pok_challenge_ref"] {
                 v.push(json!({"call": "interop", "group": g, "scheme": sch, "kind": kind}));
+            }}}
+            if prop == "C18" { for g in ["G1", "G2"] { for kind in ["eg_transcript_default_generator", "eg_transcript_custom_generator"] {
+                v.push(json!({"call": "interop", "group": g, "scheme": "Basic", "kind": kind}));
             }}}
         }
         "C20" => {
@@ -59,6 +67,7 @@ pub fn run(c: &Value) -> Option<Option<String>> {
         "keygen" => by_group!(c, keygen),
         "fresh" => by_group!(c, fresh),
         "interop" => by_group!(c, interop),
+        "identity_payload" => by_group!(c, identity_payload),
         _ => return None,
     })
 }
@@ -154,7 +163,7 @@ fn point_containers<C: BlsSignatureImpl + PartialEq + Copy + Send + Sync + 'stat
     ]
 }
 
-fn decoders<C: BlsSignatureImpl + PartialEq + Copy + Send + Sync + 'static>(c: &Value) -> Option<String> {
+fn decoders<C: BlsSignatureImpl + PartialEq + Copy + Send + Sync + serde::Serialize + serde::de::DeserializeOwned + 'static>(c: &Value) -> Option<String> {
     let s = sample::<C>();
     let kind = c["kind"].as_str().unwrap();
     match kind {
@@ -203,6 +212,37 @@ fn decoders<C: BlsSignatureImpl + PartialEq + Copy + Send + Sync + 'static>(c: &
             }
             // serde_bare containers: every truncation is rejected
             for (name, enc, accepts) in point_containers(&s) { for l in 0..enc.len() { if accepts(&enc[..l]) { return Some(format!("{}: accepted an encoding truncated to {} of {} bytes", name, l, enc.len())); } } }
+            None
+        }
+        "json_lengths" => {
+            // human-readable documents of the share containers: every hex run cut short or extended is refused
+            fn variants(doc: &str) -> Vec<String> {
+                let b = doc.as_bytes(); let mut out = vec![]; let mut i = 0;
+                while i < b.len() {
+                    if b[i].is_ascii_hexdigit() { let st = i; while i < b.len() && b[i].is_ascii_hexdigit() { i += 1; }
+                        if i - st >= 16 {
+                            for cut in [2usize, 4, 16] { out.push(format!("{}{}", &doc[..i - cut], &doc[i..])); out.push(format!("{}{}", &doc[..st], &doc[st + cut..])); }
+                            out.push(format!("{}00{}", &doc[..i], &doc[i..])); out.push(format!("{}{}{}", &doc[..i], &doc[st..st + 2], &doc[i..]));
+                        }
+                    } else { i += 1; }
+                }
+                out
+            }
+            let sh = &s.shares[0];
+            let pks = sh.public_key().ok()?;
+            let ss = sh.sign(SignatureSchemes::Basic, b"m").ok()?;
+            let sc = s.pk.sign_crypt(SignatureSchemes::Basic, b"m");
+            let ds = sc.create_decryption_share(sh).ok()?;
+            let docs: Vec<(&str, String, Box<dyn Fn(&str) -> bool>)> = vec![
+                ("SecretKeyShare", serde_json::to_string(sh).ok()?, Box::new(|d: &str| serde_json::from_str::<SecretKeyShare<C>>(d).is_ok())),
+                ("PublicKeyShare", serde_json::to_string(&pks).ok()?, Box::new(|d: &str| serde_json::from_str::<PublicKeyShare<C>>(d).is_ok())),
+                ("SignatureShare", serde_json::to_string(&ss).ok()?, Box::new(|d: &str| serde_json::from_str::<SignatureShare<C>>(d).is_ok())),
+                ("SignDecryptionShare", serde_json::to_string(&ds).ok()?, Box::new(|d: &str| serde_json::from_str::<SignDecryptionShare<C>>(d).is_ok())),
+            ];
+            for (name, doc, accepts) in docs {
+                if !accepts(&doc) { return Some(format!("{}: its own JSON document is rejected", name)); }
+                for v in variants(&doc) { if accepts(&v) { return Some(format!("{}: accepted a JSON document whose hex payload is {} characters longer (negative: shorter) than the well-formed one", name, v.len() as i64 - doc.len() as i64)); } }
+            }
             None
         }
         "zero_scalars" => {
@@ -271,8 +311,18 @@ fn roundtrip<C: BlsSignatureImpl + PartialEq + Copy + Send + Sync + 'static>(c: 
             None
         }
         "commitment_scalars" => {
-            for key in [b"k1".to_vec(), b"k2".to_vec()] {
-                let k = SecretKey::<C>::from_hash(&key).0;
+            // hashed keys, and scalars with special byte patterns: small, one high byte, bytes that XOR / sum to
+            // zero (257 = 0x0101, 0x0202, 0x80 in two places), r - 1, r - 2
+            type Sc<C> = <<C as Pairing>::PublicKey as Group>::Scalar;
+            let small = |n: u64| Sc::<C>::from(n);
+            let mut ks: Vec<Sc<C>> = vec![SecretKey::<C>::from_hash(b"k1").0, SecretKey::<C>::from_hash(b"k2").0];
+            for n in [1u64, 2, 255, 256, 257, 0x0202, 0x8080, 0x80_0000_0080, 0xffff, 0x0100_0001, u64::MAX] { ks.push(small(n)); }
+            ks.push(-small(1)); ks.push(-small(2));
+            for k in ks {
+                let sk = SecretKey::<C>(k);
+                if Option::<SecretKey<C>>::from(SecretKey::<C>::from_be_bytes(&sk.to_be_bytes())) != Some(sk.clone()) { return Some("SecretKey be bytes do not round-trip".into()); }
+                if Option::<SecretKey<C>>::from(SecretKey::<C>::from_le_bytes(&sk.to_le_bytes())) != Some(sk.clone()) { return Some("SecretKey le bytes do not round-trip".into()); }
+                let v: Vec<u8> = Vec::from(&sk); match SecretKey::<C>::try_from(v.as_slice()) { Ok(p) if p == sk => {}, _ => return Some("SecretKey Vec form does not round-trip".into()) }
                 let x = ProofCommitmentSecret::<C>(k); let y = ProofCommitmentChallenge::<C>(k);
                 let mut r = x.to_be_bytes(); r.reverse(); if r != x.to_le_bytes() { return Some("ProofCommitmentSecret: big-endian is not the reverse of little-endian".into()); }
                 if Option::<ProofCommitmentSecret<C>>::from(ProofCommitmentSecret::<C>::from_be_bytes(&x.to_be_bytes())) != Some(x) { return Some("ProofCommitmentSecret be bytes do not round-trip".into()); }
@@ -559,6 +609,45 @@ fn interop<C: BlsSignatureImpl + PartialEq + Copy + Send + Sync + 'static>(c: &V
             }
             None
         }
+        "eg_transcript_default_generator" | "eg_transcript_custom_generator" => {
+            // the ElGamal proof transcript, re-derived with merlin from the documented labels and order, over the
+            // generator actually used for the ciphertext
+            use rand_core::SeedableRng;
+            type Sc<C> = <<C as Pairing>::PublicKey as Group>::Scalar;
+            let salt: &[u8] = b"ELGAMAL_BLS12381_XOF:HKDF-SHA2-256_";
+            let custom = c["kind"] == "eg_transcript_custom_generator";
+            let gen = if custom { <C as Pairing>::PublicKey::generator() * SecretKey::<C>::from_hash(b"another generator").0 } else { <C as BlsElGamal>::message_generator() };
+            let arg = if custom { Some(gen) } else { None };
+            let g = <C as Pairing>::PublicKey::generator();
+            let challenge_of = |pk: <C as Pairing>::PublicKey, c1: <C as Pairing>::PublicKey, c2: <C as Pairing>::PublicKey, r1: <C as Pairing>::PublicKey, r2: <C as Pairing>::PublicKey| -> Sc<C> {
+                let mut t = merlin::Transcript::new(b"ElGamalProof");
+                t.append_message(b"dst", salt);
+                t.append_message(b"base point", g.to_bytes().as_ref());
+                t.append_message(b"pk", pk.to_bytes().as_ref());
+                t.append_message(b"generator", gen.to_bytes().as_ref());
+                t.append_message(b"c1", c1.to_bytes().as_ref());
+                t.append_message(b"c2", c2.to_bytes().as_ref());
+                t.append_message(b"r1", r1.to_bytes().as_ref());
+                t.append_message(b"r2", r2.to_bytes().as_ref());
+                let mut ch = [0u8; 64]; t.challenge_bytes(b"challenge", &mut ch);
+                <C as BlsElGamal>::scalar_from_bytes_wide(&ch)
+            };
+            let msg = SecretKey::<C>::from_hash(b"elgamal message").0;
+            // library -> reference
+            let (c1, c2, mp, bp, ch) = match <C as BlsElGamal>::seal_scalar_with_proof(s.pk.0, msg, arg, None, rand_chacha::ChaCha20Rng::from_seed([5u8; 32])) { Ok(x) => x, Err(e) => return Some(format!("seal_scalar_with_proof failed: {}", e)) };
+            let r1 = c1 * (-ch) + g * bp;
+            let r2 = c2 * (-ch) + gen * mp + s.pk.0 * bp;
+            if challenge_of(s.pk.0, c1, c2, r1, r2) != ch { return Some("the library's ElGamal challenge is not the documented transcript over the generator in use".into()); }
+            // reference -> library
+            let b = SecretKey::<C>::from_hash(b"blinder").0; let r = SecretKey::<C>::from_hash(b"nonce").0;
+            let (d1, d2) = (g * b, s.pk.0 * b + gen * msg);
+            let (q1, q2) = (g * r, s.pk.0 * r + gen * b);
+            let y = challenge_of(s.pk.0, d1, d2, q1, q2);
+            let (mp2, bp2) = (b + y * msg, r + y * b);
+            if let Err(e) = <C as BlsElGamal>::verify_proof(s.pk.0, arg, d1, d2, mp2, bp2, y) { return Some(format!("the library rejects a reference-made ElGamal proof: {}", e)); }
+            match <C as BlsElGamal>::verify_and_decrypt(s.sk.0, arg, d1, d2, mp2, bp2, y) { Ok(p) if p == gen * msg => {}, _ => return Some("verify_and_decrypt does not open a reference-made ElGamal proof".into()) }
+            None
+        }
         "pok_challenge_ref" => {
             // the timestamp challenge, derived independently: y = HashToScalar(enc(u) || le64(t), SALT_POK)
             let salt: &[u8] = b"BLS_POK__BLS12381_XOF:HKDF-SHA2-256_";
@@ -594,3 +683,49 @@ fn interop<C: BlsSignatureImpl + PartialEq + Copy + Send + Sync + 'static>(c: &V
         }
     }
 }
+
+/// C04 on the payload-encryption paths: ciphertexts CRAFTED (with the reference construction, no key) so that
+/// they would open under an identity decryption key / identity component if the guard were missing
+fn identity_payload<C: BlsSignatureImpl + PartialEq + Copy + Send + Sync + 'static>(c: &Value) -> Option<String> {
+    let s = sample::<C>();
+    let sch = match c["scheme"].as_str().unwrap_or("") { "Basic" => SignatureSchemes::Basic, "MessageAugmentation" => SignatureSchemes::MessageAugmentation, _ => SignatureSchemes::ProofOfPossession };
+    let mk = |p: <C as Pairing>::Signature| match sch { SignatureSchemes::Basic => Signature::<C>::Basic(p), SignatureSchemes::MessageAugmentation => Signature::MessageAugmentation(p), _ => Signature::ProofOfPossession(p) };
+    let salt: &[u8] = b"TIMELOCK_BLS12381_XOF:HKDF-SHA2-256_";
+    let m = b"abc".to_vec();
+    let id_sig = <C as Pairing>::Signature::identity();
+    let id_pk = <C as Pairing>::PublicKey::identity();
+    
+    match c["kind"].as_str().unwrap() {
+        "tc_forged_id_sig" => {
+            // K = e(O, U) is the unit of the target group whatever U is: anybody can seal to it
+            let alpha = [0x42u8; 32];
+            let mut ri = alpha.to_vec(); ri.extend_from_slice(&sha256(&m));
+            let r = <C as HashToScalar>::hash_to_scalar(ri.as_slice(), salt);
+            let u = <C as Pairing>::PublicKey::generator() * r;
+            let k = <C as Pairing>::pairing(&[(id_sig, u)]);
+            let v: [u8; 32] = xor(&alpha, &sha256(k.to_bytes().as_ref())).try_into().ok()?;
+            let f = frame(&m);
+            let w = xor(&f, &shake128(&alpha, f.len()));
+            let ct = TimeCryptCiphertext::<C> { u, v, w, scheme: sch };
+            if is_open(ct.decrypt(&mk(id_sig))) { return Some("a time-lock ciphertext crafted without any key opens under the identity signature".into()); }
+            None
+        }
+        "tc_id_u" => {
+            let ct = s.pk.encrypt_time_lock(sch, &m, b"id").ok()?;
+            let sig = s.sk.sign(sch, b"id").ok()?;
+            let bad = TimeCryptCiphertext::<C> { u: id_pk, v: ct.v, w: ct.w.clone(), scheme: sch };
+            if is_open(bad.decrypt(&sig)) || is_open(bad.decrypt(&mk(id_sig))) { return Some("a time-lock ciphertext whose U is the identity opens".into()); }
+            if is_open(ct.decrypt(&mk(id_sig))) { return Some("an honest time-lock ciphertext opens under the identity signature".into()); }
+            None
+        }
+        _ => {
+            let ct = s.pk.sign_crypt(sch, &m);
+            for (what, bad) in [("U", SignCryptCiphertext::<C> { u: id_pk, v: ct.v.clone(), w: ct.w, scheme: sch }), ("W", SignCryptCiphertext::<C> { u: ct.u, v: ct.v.clone(), w: id_sig, scheme: sch }), ("U and W", SignCryptCiphertext::<C> { u: id_pk, v: ct.v.clone(), w: id_sig, scheme: sch })] {
+                if bool::from(bad.is_valid()) || is_open(bad.decrypt(&s.sk)) { return Some(format!("a signcryption ciphertext whose {} is the identity is accepted", what)); }
+            }
+            None
+        }
+    }
+}
+
+fn is_open<T: Into<Option<Vec<u8>>>>(o: T) -> bool { let x: Option<Vec<u8>> = o.into(); x.is_some() }
